@@ -115,6 +115,31 @@ pub enum Item {
     /// raw text that must be emitted verbatim (the body of an A2ML block)
     Raw(String),
     Node(Node),
+    /// an /include directive standing for the items of another file
+    Inc(Box<IncRef>),
+    /// A2ML text that pulls a part of itself through an A2ML-level /include
+    RawInc(Box<RawInc>),
+}
+
+#[derive(Debug, Clone)]
+pub struct IncRef {
+    /// the name as written in the directive (without quotes)
+    pub name: String,
+    pub quoted: bool,
+    /// absolute path of the target in the simulated file system
+    pub path: String,
+    /// content of the included file: nodes and nested includes
+    pub items: Vec<Item>,
+}
+
+#[derive(Debug, Clone)]
+pub struct RawInc {
+    pub before: String,
+    pub name: String,
+    pub quoted: bool,
+    pub path: String,
+    pub content: String,
+    pub after: String,
 }
 
 #[derive(Debug, Clone)]
@@ -623,6 +648,84 @@ pub struct Rendered {
     pub feats: Features,
 }
 
+#[derive(Debug, Clone)]
+pub struct RDirective {
+    /// byte span of the whole directive ("/include" .. end of the name) in the including file's text
+    pub start: usize,
+    pub end: usize,
+    /// line (1-based) of the file name token
+    pub line: u32,
+    pub name: String,
+    pub quoted: bool,
+    pub a2ml_level: bool,
+    pub file: RenderedFile,
+}
+
+#[derive(Debug, Clone)]
+pub struct RenderedFile {
+    pub path: String,
+    pub text: String,
+    pub spans: Vec<Span>,
+    pub directives: Vec<RDirective>,
+    pub feats: Features,
+}
+
+impl RenderedFile {
+    /// the flattened text: every directive replaced by the content of its target, recursively.
+    /// A2L-level content gets a line break on both sides so that no two tokens fuse; A2ML-level substitution is byte exact.
+    pub fn flatten(&self) -> String {
+        let mut out = String::new();
+        let mut pos = 0;
+        let mut ds: Vec<&RDirective> = self.directives.iter().collect();
+        ds.sort_by_key(|d| d.start);
+        for d in ds {
+            out.push_str(&self.text[pos..d.start]);
+            if d.a2ml_level {
+                out.push_str(&d.file.text);
+            } else {
+                out.push('\n');
+                out.push_str(&d.file.flatten());
+                out.push('\n');
+            }
+            pos = d.end;
+        }
+        out.push_str(&self.text[pos..]);
+        out
+    }
+
+    /// does this file (or a file it includes) contribute at least one element
+    pub fn has_elements(&self) -> bool {
+        self.spans.iter().any(|s| s.kind == SpanKind::Tag) || self.directives.iter().any(|d| !d.a2ml_level && d.file.has_elements())
+    }
+
+    pub fn all_files(&self) -> Vec<&RenderedFile> {
+        let mut v = vec![self];
+        for d in &self.directives {
+            v.extend(d.file.all_files());
+        }
+        v
+    }
+
+    pub fn all_directives(&self) -> Vec<(&RenderedFile, &RDirective, u32)> {
+        fn walk<'a>(f: &'a RenderedFile, depth: u32, out: &mut Vec<(&'a RenderedFile, &'a RDirective, u32)>) {
+            for d in &f.directives {
+                out.push((f, d, depth));
+                walk(&d.file, depth + 1, out);
+            }
+        }
+        let mut out = Vec::new();
+        walk(self, 1, &mut out);
+        out
+    }
+}
+
+struct PendingInc {
+    start: usize,
+    end: usize,
+    line: u32,
+    inc: IncRef,
+}
+
 pub struct Renderer<'t> {
     t: &'t mut Tape,
     lo: LayoutOpts,
@@ -632,12 +735,14 @@ pub struct Renderer<'t> {
     feats: Features,
     /// > 0 while inside IF_DATA: the library cannot handle comments between the blocks of uninterpreted IF_DATA
     in_ifdata: u32,
+    pending: Vec<PendingInc>,
+    a2ml_directives: Vec<RDirective>,
 }
 
 impl<'t> Renderer<'t> {
     pub fn new(t: &'t mut Tape, lo: LayoutOpts) -> Renderer<'t> {
         let nl = if lo.crlf { "\r\n" } else { "\n" };
-        Renderer { t, lo, out: String::new(), spans: Vec::new(), nl, feats: Features::default(), in_ifdata: 0 }
+        Renderer { t, lo, out: String::new(), spans: Vec::new(), nl, feats: Features::default(), in_ifdata: 0, pending: Vec::new(), a2ml_directives: Vec::new() }
     }
 
     fn newline(&mut self, n: usize, indent: usize) {
@@ -793,6 +898,39 @@ impl<'t> Renderer<'t> {
                     last_was_raw = true;
                 }
                 Item::Node(c) => self.node(c, indent + 1, false),
+                Item::Inc(inc) => self.include(inc, indent + 1, false),
+                Item::RawInc(ri) => {
+                    self.out.push_str(self.nl);
+                    let conv = |s: &str, crlf: bool| if crlf { s.replace('\n', "\r\n") } else { s.to_string() };
+                    let start_all = self.out.len();
+                    self.out.push_str(&conv(&ri.before, self.lo.crlf));
+                    let dstart = self.out.len();
+                    self.out.push_str("/include ");
+                    if ri.quoted {
+                        self.out.push('"');
+                        self.out.push_str(&ri.name);
+                        self.out.push('"');
+                    } else {
+                        self.out.push_str(&ri.name);
+                    }
+                    let dend = self.out.len();
+                    let line = 1 + self.out[..dstart].bytes().filter(|b| *b == b'\n').count() as u32;
+                    self.out.push_str(&conv(&ri.after, self.lo.crlf));
+                    self.spans.push(Span { start: start_all, end: self.out.len(), kind: SpanKind::Raw });
+                    // the included A2ML text keeps LF line ends: the library normalises the line ends of the A2ML block
+                    // but (naturally) not those of a separately stored file, and the reference text is built the same way
+                    let content = ri.content.clone();
+                    self.a2ml_directives.push(RDirective {
+                        start: dstart,
+                        end: dend,
+                        line,
+                        name: ri.name.clone(),
+                        quoted: ri.quoted,
+                        a2ml_level: true,
+                        file: RenderedFile { path: ri.path.clone(), text: content, spans: Vec::new(), directives: Vec::new(), feats: Features::default() },
+                    });
+                    last_was_raw = true;
+                }
             }
         }
         if n.block {
@@ -826,6 +964,22 @@ impl<'t> Renderer<'t> {
         }
     }
 
+    pub fn include(&mut self, inc: &IncRef, indent: usize, first_in_file: bool) {
+        self.sep_element(indent, first_in_file);
+        let start = self.out.len();
+        self.tok("/include", SpanKind::Begin);
+        if self.lo.style == 2 && self.t.chance(1, 6) {
+            self.out.push_str("   ");
+        } else {
+            self.out.push(' ');
+        }
+        let line = 1 + self.out.bytes().filter(|b| *b == b'\n').count() as u32;
+        let name = if inc.quoted { format!("\"{}\"", inc.name) } else { inc.name.clone() };
+        self.tok(&name, SpanKind::Tok);
+        let end = self.out.len();
+        self.pending.push(PendingInc { start, end, line, inc: inc.clone() });
+    }
+
     pub fn finish(mut self) -> Rendered {
         if self.lo.comments && self.t.chance(1, 8) {
             self.newline(1, 0);
@@ -845,6 +999,36 @@ pub fn render_nodes(t: &mut Tape, nodes: &[Node], lo: &LayoutOpts, base_indent: 
         r.node(n, base_indent, i == 0);
     }
     r.finish()
+}
+
+/// render a file given as a list of items (nodes and include directives); included files are rendered recursively
+pub fn render_file(t: &mut Tape, path: &str, items: &[Item], lo: &LayoutOpts, base_indent: usize) -> RenderedFile {
+    let (text, spans, feats, pending, a2ml_directives) = {
+        let mut r = Renderer::new(t, lo.clone());
+        let mut first = true;
+        for it in items {
+            match it {
+                Item::Node(n) => r.node(n, base_indent, first),
+                Item::Inc(inc) => r.include(inc, base_indent, first),
+                _ => panic!("only nodes and includes at file level"),
+            }
+            first = false;
+        }
+        let pending = std::mem::take(&mut r.pending);
+        let a2ml_directives = std::mem::take(&mut r.a2ml_directives);
+        let rendered = r.finish();
+        (rendered.text, rendered.spans, rendered.feats, pending, a2ml_directives)
+    };
+    let mut directives = a2ml_directives;
+    for p in pending {
+        // an included file has its own layout: own line-end convention is kept, the rest is drawn again
+        let mut child_lo = LayoutOpts::swarm(t);
+        child_lo.crlf = lo.crlf;
+        child_lo.leading_blank = t.chance(1, 3);
+        let file = render_file(t, &p.inc.path, &p.inc.items, &child_lo, base_indent);
+        directives.push(RDirective { start: p.start, end: p.end, line: p.line, name: p.inc.name.clone(), quoted: p.inc.quoted, a2ml_level: false, file });
+    }
+    RenderedFile { path: path.to_string(), text, spans, directives, feats }
 }
 
 pub fn merge_feats(a: &Features, b: &Features) -> Features {
